@@ -1002,3 +1002,70 @@ func checkPrinterReadsWholeOperand(c *core.Ctx) {
 		}
 	}
 }
+
+// checkDisassembleAdvances (R04.41): the section disassembler is total over section contents:
+// each step that advances through the section by re-slicing (`buf = buf[k:]`) is taken only
+// where at least k bytes are left - after a comparison of len(buf) with k (or with a larger
+// constant), or by the size of an instruction Decode just accepted (Decode refuses an instruction
+// that is longer than the buffer). The loop test `len(buf) > 0` alone does not cover a step of 4:
+// a section whose size is not a multiple of four ends in a slice-bounds panic.
+func checkDisassembleAdvances(c *core.Ctx) {
+	st := c.Rule("R04.41", "Disassembler.Disassemble advances through a section only by what is left of it: every open-ended re-slice buf[k:] of the section bytes is dominated by a comparison that establishes len(buf) >= k (for a constant k: len(buf) compared with a constant >= k; for a variable k: len(buf) compared with that same value), or k is the ByteSize of the instruction Decode returned without error (Decode refuses instructions longer than the buffer). Three advancing steps: the kernel header, an undecodable word, a decoded instruction", 3)
+	fn := c.MustFunc("R04.41", instsPkg, "Disassembler.Disassemble")
+	if fn == nil {
+		return
+	}
+	c.MarkAnalysed(fn)
+	prov := core.NewLocalProv(c)
+	g := core.BuildGraph(fn, 0, nil)
+	for _, n := range g.Nodes {
+		sl, ok := n.Instr.(*ssa.Slice)
+		if !ok || sl.High != nil || sl.Low == nil {
+			continue
+		}
+		if _, isSlice := sl.X.Type().Underlying().(*types.Slice); !isSlice {
+			continue
+		}
+		st.Instances++
+		lowP := prov.Of(core.StripConv(sl.Low))
+		kLow, lowConst := core.ConstInt(sl.Low)
+		okG := false
+		why := ""
+		if strings.HasSuffix(lowP, ".ByteSize") && strings.Contains(lowP, "Decode(") {
+			okG, why = true, "the size of the instruction Decode accepted"
+		} else {
+			okG = g.Guarded(n, CmpCut(func(_ *core.Node, op token.Token, x, y ssa.Value) int {
+				// len(buf) OP bound
+				call, isCall := core.StripConv(x).(*ssa.Call)
+				if !isCall || !core.IsBuiltin(call, "len") {
+					return 0
+				}
+				if _, isSl := call.Call.Args[0].Type().Underlying().(*types.Slice); !isSl {
+					return 0
+				}
+				enough := false
+				if k, isC := core.ConstInt(y); isC {
+					enough = lowConst && ((op == token.GEQ || op == token.LSS) && k >= kLow || (op == token.GTR || op == token.LEQ) && k >= kLow-1)
+				} else if prov.Of(core.StripConv(y)) == lowP {
+					enough = op == token.GEQ || op == token.LSS
+				}
+				if !enough {
+					return 0
+				}
+				switch op {
+				case token.GEQ, token.GTR:
+					return 1
+				case token.LSS, token.LEQ:
+					return -1
+				}
+				return 0
+			}))
+			why = "a comparison of len(buf) with the step"
+		}
+		st.Ob(okG)
+		st.Sample("Disassemble: buf[%s:] taken after %s: %v", short(lowP), why, okG)
+		if !okG {
+			c.ReportAt("R04.41", fn, sl.Pos(), "advance-beyond-section:"+short(lowP), "Disassemble re-slices the section bytes by "+short(lowP)+" on a path that only knows len(buf) > 0: when fewer bytes are left (a section whose size is not a multiple of four, a truncated trailing kernel header) the disassembler panics with slice bounds out of range instead of reporting the undecodable tail")
+		}
+	}
+}
